@@ -864,18 +864,21 @@ where
     }
 }
 
+// A `Node` is a shared handle (an `Arc`): sending a clone to another thread
+// shares the key, the value and the edge values with it, so both impls need
+// `Send + Sync` payloads, exactly like `Arc<T>` itself.
 unsafe impl<K, N, E> Send for Node<K, N, E>
 where
-    K: Clone + Hash + Display + PartialEq + Eq + Send,
-    N: Clone + Send,
-    E: Clone + Send,
+    K: Clone + Hash + Display + PartialEq + Eq + Send + Sync,
+    N: Clone + Send + Sync,
+    E: Clone + Send + Sync,
 {
 }
 
 unsafe impl<K, N, E> Sync for Node<K, N, E>
 where
-    K: Clone + Hash + Display + PartialEq + Eq + Sync,
-    N: Clone + Sync,
-    E: Clone + Sync,
+    K: Clone + Hash + Display + PartialEq + Eq + Send + Sync,
+    N: Clone + Send + Sync,
+    E: Clone + Send + Sync,
 {
 }
